@@ -26,7 +26,8 @@ REG = Registry(
     rule=('synthetic genotype matrices: 1-3 populations, 2-12 diploids each, 1-40 SNPs, missing calls (./. with DP=0 / AD=0,0 when those '
           'fields exist), FILTER values, REF/ALT incl. lower case, multi-character and multi-allelic, AA present / absent / mismatching / '
           "'|'-suffixed / lower case, chromosome names containing '_' and '.', samples absent from the popinfo file, plain and .gz VCF; "
-          'emitted as VCF+popinfo and as the SNP-table format; all projections, chunk sizes, seeds. Non-trivial = >= 2 populations or a '
+          'emitted as VCF+popinfo and as the SNP-table format; per-call read depths (AD/DP) varying from 1 to 30 and the calc_coverage option; '
+          'all projections, chunk sizes, seeds; bootstraps from chunks and from the subsampled VCF. Non-trivial = >= 2 populations or a '
           'missing call or an unusable line present. Distinct by hash of the case.'),
     assumptions=['oracle: direct counting - per usable SNP the product over populations of hypergeometric weights (math.comb), polarised '
                  'by the AA allele or folded; statistics computed SNP by SNP from the genotype matrix with formulas typed from the literature',
@@ -123,6 +124,12 @@ class Data:
         rs.shuffle(self.samples)
         self.extra = ['unlisted%d' % i for i in range(c['extra_samples'])]
         self.rs = rs
+        # read depths (an independent stream, so that everything above is unchanged): one total depth per call, split between
+        # the alleles for heterozygotes
+        ds = np.random.RandomState((c['seed'] + 7919) % (2 ** 31))
+        for s in self.snps:
+            s['depth'] = [[int(ds.randint(1, 31)) for _ in range(self.ninds[p])] for p in range(self.P)]
+            s['het_ref'] = [[int(ds.randint(0, 31)) for _ in range(self.ninds[p])] for p in range(self.P)]
 
     # ------------------------------------------------------------------ writers
     def write_vcf(self, path, popinfo_path, header_popinfo=False):
@@ -137,7 +144,7 @@ class Data:
             calls = []
             for name, p, i in self.samples:
                 g = s['gts'][p][i]
-                calls.append(self._fmt(g, s['sep']))
+                calls.append(self._fmt(g, s['sep'], s['depth'][p][i], s['het_ref'][p][i]))
             for _ in self.extra:
                 calls.append(self._fmt((1, 1), '/'))
             lines.append('\t'.join([s['chrom'], str(s['pos']), '.', s['ref'], s['alt'], '50', s['filt'], ';'.join(info), c['fmt']] + calls))
@@ -158,14 +165,15 @@ class Data:
                 for name, p, i in sorted(self.samples):
                     f.write('%s %s\n' % (name, self.pops[p]))
 
-    def _fmt(self, g, sep):
+    def _fmt(self, g, sep, depth=12, het_ref=6):
         fmt = self.c['fmt']
         if g is None:
             gt, dp, ad = '.' + sep + '.', '0', '0,0'
         else:
             gt = '%d%s%d' % (g[0], sep, g[1])
             nalt = g[0] + g[1]
-            dp, ad = '12', {0: '12,0', 1: '6,6', 2: '0,12'}[nalt]
+            a = min(het_ref, depth)
+            dp, ad = str(depth), {0: '%d,0' % depth, 1: '%d,%d' % (a, depth - a), 2: '0,%d' % depth}[nalt]
         if fmt == 'GT':
             return gt
         if fmt == 'GT:DP':
@@ -261,7 +269,7 @@ def fs_case(draw):
     c = draw(geno_case())
     proj_frac = [draw(st.floats(0.1, 1.0)) for _ in range(c['P'])]
     return dict(c, proj_frac=proj_frac, polarized=draw(st.booleans()), use_filter=draw(st.sampled_from([True, True, False])),
-                via=draw(st.sampled_from(['vcf', 'vcf', 'table'])), header_popinfo=draw(st.booleans()))
+                via=draw(st.sampled_from(['vcf', 'vcf', 'table'])), header_popinfo=draw(st.booleans()), calc_coverage=draw(st.booleans()))
 
 
 @REG.relation('R1-spectrum-from-data', strategy=fs_case, quick=(500, 16), thorough=(8000, 16))
@@ -273,11 +281,25 @@ def r1(case, rec):
     rec.case(case, _nt(case), ['P=%d' % case['P'], case['via'], 'polarized' if case['polarized'] else 'folded', case['fmt'], 'gz' if case['gz'] else 'plain'])
     if case['via'] == 'vcf':
         vcf, pop = write_inputs(case, data, header_popinfo=case['header_popinfo'])
+        # calc_coverage (the input of the low-coverage correction) needs allelic depths in the file
+        cov = bool(case.get('calc_coverage')) and case['fmt'] == 'GT:AD:DP'
         with dadi_call('make_data_dict_vcf'):
-            dd = Misc.make_data_dict_vcf(vcf, pop, filter=case['use_filter'])
+            dd = Misc.make_data_dict_vcf(vcf, pop, filter=case['use_filter'], **(dict(calc_coverage=True) if cov else {}))
         os.unlink(vcf)
         os.unlink(pop)
         use_filter = case['use_filter']
+        if cov:
+            rec.label('calc_coverage')
+            for s in data.snps:
+                if not data.usable(s, use_filter):
+                    continue
+                key = '%s_%d' % (s['chrom'], s['pos'])
+                require(key in dd and isinstance(dd[key].get('coverage'), dict), 'no coverage recorded for SNP %s' % key)
+                for p in range(data.P):
+                    # one total depth per called individual of the population, in the order of the VCF columns
+                    exp_cov = [s['depth'][pp][i] for name, pp, i in data.samples if pp == p and s['gts'][pp][i] is not None]
+                    got_cov = [int(v) for v in dd[key]['coverage'].get(data.pops[p], ())]
+                    require(got_cov == exp_cov, 'coverage of %s in %s: %r, depths written %r' % (key, data.pops[p], got_cov, exp_cov))
     else:
         path = os.path.join(tmpdir(), 'tab_%d.txt' % os.getpid())
         data.write_table(path)
@@ -468,6 +490,81 @@ def r3(case, rec):
             lo, hi = sum(per_ind[:k]), sum(per_ind[-k:])
             require(lo <= altc <= hi, 'SNP %s, population %s: %d alternative alleles cannot come from %d of the called individuals (range %d..%d)'
                     % (key, data.pops[p], altc, k, lo, hi))
+
+
+@st.composite
+def bsub_case(draw):
+    c = draw(geno_case(max_snps=25))
+    c['miss'] = draw(st.sampled_from([0.0, 0.0, 0.05, 0.3]))
+    c['junk'] = 0.0
+    return dict(c, full=draw(st.booleans()), sub_frac=[draw(st.floats(0.3, 1.0)) for _ in range(c['P'])], nboot=draw(st.integers(1, 3)),
+                chunk=draw(st.sampled_from([137, 400, 1000, 5000])), polarized=draw(st.booleans()), mask_corners=draw(st.booleans()),
+                bseed=draw(st.integers(0, 2 ** 31 - 1)))
+
+
+@REG.relation('R5-bootstraps-subsample-vcf', strategy=bsub_case, quick=(200, 16), thorough=(3000, 16))
+def r5(case, rec):
+    """bootstraps_subsample_vcf: each bootstrap is a sum of as many chunk spectra (with repetition) as there are chunks, built from
+    the SNPs in which every population has at least the requested number of called individuals. With every individual requested
+    and nothing missing the chunk spectra are fully determined and the bootstrap is decided exactly; otherwise its total must be a
+    sum of that many chunk SNP counts."""
+    data = Data(case)
+    full = case['full'] and case['miss'] == 0.0
+    sub = {data.pops[p]: (case['ninds'][p] if full else max(1, int(round(case['ninds'][p] * case['sub_frac'][p])))) for p in range(case['P'])}
+    # SNPs that survive the subsampling (every population has at least the requested number of called individuals)
+    surviving = [s for s in data.snps if s['usable'] and all(sum(g is not None for g in s['gts'][p]) >= sub[data.pops[p]] for p in range(case['P']))]
+    if not surviving:
+        raise Reject()          # nothing to bootstrap from
+    vcf, pop = write_inputs(case, data, tag='b')
+    rec.case(case, True, ['P=%d' % case['P'], 'all individuals, exact' if full else 'subsampled, totals', 'polarized' if case['polarized'] else 'folded'])
+    random.seed(case['bseed'])
+    np.random.seed(case['bseed'] % (2 ** 32 - 1))
+    try:
+        with dadi_call('bootstraps_subsample_vcf'):
+            boots = Misc.bootstraps_subsample_vcf(vcf, pop, dict(sub), case['nboot'], case['chunk'], data.pops, mask_corners=case['mask_corners'],
+                                                  polarized=case['polarized'])
+        with dadi_call('make_data_dict_vcf / fragment_data_dict'):
+            dd = Misc.make_data_dict_vcf(vcf, pop)
+            # the genomic windows of the surviving SNPs as fragment_data_dict cuts them (windows without SNPs included: R2 checks
+            # that function); the calls inside are not used for the subsampled case, only the SNP counts
+            frags = Misc.fragment_data_dict({'%s_%d' % (s['chrom'], s['pos']): dd['%s_%d' % (s['chrom'], s['pos'])] for s in surviving}, case['chunk'])
+    finally:
+        for f_ in (vcf, pop):
+            if os.path.exists(f_):
+                os.unlink(f_)
+    require(len(boots) == case['nboot'], '%d bootstraps returned, %d requested' % (len(boots), case['nboot']))
+    nchunks = len(frags)
+    shape = tuple(2 * sub[q] + 1 for q in data.pops)
+    for b in boots:
+        require(b.shape == shape, 'bootstrap shape %r, expected %r' % (b.shape, shape))
+        require(bool(b.folded) == (not case['polarized']), 'bootstrap folding status wrong')
+        require(list(b.pop_ids) == data.pops, 'bootstrap labels %r' % (b.pop_ids,))
+    if full:
+        projections = [2 * sub[q] for q in data.pops]
+        parts = [dadi.Spectrum.from_data_dict(f_, data.pops, projections, mask_corners=case['mask_corners'], polarized=case['polarized']) for f_ in frags]
+        wmask = np.ma.getmaskarray(parts[0])
+        keep = ~wmask.ravel()
+        if not keep.any():
+            return
+        distinct = []
+        for p_ in parts:
+            a = np.asarray(np.ma.getdata(p_), float).ravel()[keep]
+            if not any(np.abs(a - d).max() < 1e-12 for d in distinct):
+                distinct.append(a)
+        distinct.sort(key=lambda a: -a.sum())
+        for b in boots:
+            require(np.array_equal(np.ma.getmaskarray(b), wmask), 'bootstrap (mask_corners=%r) is masked differently from the chunk spectra' % case['mask_corners'])
+            verdict = _is_multiset_sum(np.asarray(np.ma.getdata(b), float).ravel()[keep], distinct, nchunks)
+            require(verdict is not False, 'a bootstrap from the subsampled VCF (all individuals requested) is not a sum of %d chunk spectra' % nchunks)
+    elif case['polarized'] and not case['mask_corners']:
+        # a polarised spectrum counts only the SNPs whose ancestral allele is known
+        has_aa = {'%s_%d' % (s_['chrom'], s_['pos']) for s_ in surviving if s_['aa'] is not None}
+        counts = sorted(set(float(sum(1 for k_ in f_ if k_ in has_aa)) for f_ in frags), reverse=True)
+        for b in boots:
+            tot = float(np.asarray(np.ma.getdata(b), float).sum())
+            require(abs(tot - round(tot)) < 1e-9, 'bootstrap total %r is not a whole number of SNPs' % tot)
+            verdict = _is_multiset_sum(np.array([tot]), [np.array([c_]) for c_ in counts], nchunks)
+            require(verdict is not False, 'bootstrap total %r is not a sum of %d chunk SNP counts %r' % (tot, nchunks, counts))
 
 
 def tajima_D(n, S, pi):
